@@ -653,6 +653,10 @@ func (c *vfExCase) client(tr *Transport, j int) {
 	it, st := c.it, &c.it.Streams[j]
 	obs := vfExObs{}
 	defer func() {
+		if r := recover(); r != nil {
+			obs.err = fmt.Sprint("panic in the client: ", r)
+			obs.done = true
+		}
 		c.mu.Lock()
 		c.cobs[j] = obs
 		c.mu.Unlock()
@@ -1000,14 +1004,19 @@ func TestVerifH2Exchange(t *testing.T) {
 		var mm [][4]any
 		var steps int
 		var taps [2]*vfExTap
+		t0 := time.Now()
 		left := vfExBubble(t, func() { mm, steps, taps = c.run(rnd, record) })
+		if d := time.Since(t0); d > 150*time.Millisecond && env.Bool("timing", false) {
+			t.Logf("item %d took %v: id=%v srv=%+v cli=%+v req=%+v resp=%+v par=%d order=%d", raw.B, d, it.Id, it.In.Srv, it.In.Cli, it.In.Req, it.In.Resp, it.In.Par, it.In.Order)
+		}
 		if left != "" {
 			mm = append(mm, [4]any{0, "goroutines still blocked after the connection was closed", "none", left})
 			env.Hung = true
 		}
 		if record {
 			for k, tap := range taps {
-				if tap == nil {
+				if tap == nil || len(mm) > 0 {
+					// exchanges that did not go as predicted are reported by the replay stages
 					continue
 				}
 				tn++
@@ -1022,6 +1031,9 @@ func TestVerifH2Exchange(t *testing.T) {
 				env.Emit(tn, map[string]any{"e": "hdr", "role": tap.role, "W": rcw, "pcw": 65535, "piw": 65535, "pmf": 16384,
 					"ca": rcw, "siw": siw, "minRefresh": 4096, "item": raw.B})
 				for _, ev := range tap.events {
+					if env.Bool("selftest_drop_wu", false) && ev["e"] == "p_wu" && ev["s"] != 0 {
+						continue // binding self-test: without the peer's stream WINDOW_UPDATEs TLC must reject
+					}
 					env.Emit(tn, ev)
 				}
 				env.Emit(tn, map[string]any{"e": "q", "unsent": -1})
